@@ -17,9 +17,9 @@ import (
 
 type rPDR struct {
 	sPDR
-	TEID  uint32 // resolved tunnel endpoint (given or chosen by the UP), 0 = none
-	TunIP uint32
-	UE    uint32 // resolved UE address (given or allocated), 0 = none
+	TEID               uint32 // resolved tunnel endpoint (given or chosen by the UP), 0 = none
+	TunIP              uint32
+	UE                 uint32 // resolved UE address (given or allocated), 0 = none
 	ChoseTEID, AllocUE bool
 }
 
@@ -208,6 +208,9 @@ type sessSys struct {
 	keyExtra func(s *sessSys) string
 	steps    int
 	poisoned bool // a panic happened in this instance: the real process would be dead
+	// poisonOnViolation makes a state in which an oracle failed terminal (its successors would only repeat the finding)
+	poisonOnViolation bool
+	confirming        bool // an oracle is executing a confirmation request (oracles do not recurse)
 }
 
 func (s *sessSys) close() { s.in.close() }
@@ -226,6 +229,9 @@ func (s *sessSys) ops() []seqOp {
 // violation records a finding with the current history as replay payload.
 func (s *sessSys) violation(sig, desc string) {
 	s.res.finding(sig, desc, s.ex.replayCase())
+	if s.poisonOnViolation {
+		s.poisoned = true
+	}
 }
 
 const vUnknownSEID = 0xDEAD00000000BEEF
@@ -420,6 +426,27 @@ func (s *sessSys) key() string {
 	// implementation side
 	for i, c := range s.in.conns {
 		fmt.Fprintf(&b, "conn%d closed=%v node=%q stored=%d\n", i, c.sock.isClosed(), c.pc.nodeID.remote, len(c.pc.store.GetAllSessions()))
+	}
+	// the association's session store (rule lists in stored order: in-place shifting and aliasing live here)
+	for i, c := range s.in.conns {
+		var lines []string
+		for _, ss := range c.pc.store.GetAllSessions() {
+			l := fmt.Sprintf("store%d %s cp=%x", i, rn.S(ss.localSEID), ss.remoteSEID)
+			for _, p := range ss.pdrs {
+				l += fmt.Sprintf(" P(%d if=%d t=%s/%s ue=%s af=%s/%x,%s/%x,%d/%x,%v,%v prec=%d far=%d q=%v d=%d a=%v)", p.pdrID, p.srcIface, vIPStr(p.tunnelIP4Dst), rn.T(p.tunnelTEID),
+					rn.U(p.ueAddress), rn.U(p.appFilter.srcIP), p.appFilter.srcIPMask, rn.U(p.appFilter.dstIP), p.appFilter.dstIPMask, p.appFilter.proto, p.appFilter.protoMask,
+					p.appFilter.srcPortRange, p.appFilter.dstPortRange, p.precedence, p.farID, p.qerIDList, p.needDecap, p.allocIPFlag)
+			}
+			for _, f := range ss.fars {
+				l += fmt.Sprintf(" F(%d a=%d d=%d tt=%d %s>%s t=%d p=%d em=%v)", f.farID, f.applyAction, f.dstIntf, f.tunnelType, vIPStr(f.tunnelIP4Src), vIPStr(f.tunnelIP4Dst), f.tunnelTEID, f.tunnelPort, f.sendEndMarker)
+			}
+			for _, q := range ss.qers {
+				l += fmt.Sprintf(" Q(%d l=%d qfi=%d g=%d/%d m=%d/%d gb=%d/%d)", q.qerID, q.qosLevel, q.qfi, q.ulStatus, q.dlStatus, q.ulMbr, q.dlMbr, q.ulGbr, q.dlGbr)
+			}
+			lines = append(lines, l)
+		}
+		sort.Strings(lines)
+		b.WriteString(strings.Join(lines, "\n") + "\n")
 	}
 	if s.in.fb != nil {
 		b.WriteString(s.in.fb.digest(rn))
